@@ -238,6 +238,9 @@ fn gen_constants(rng: &mut SplitMix64, n: usize, thorough: bool, out: &mut impl 
         vec![], vec![0], vec![3], vec![2, 3], vec![-1], vec![2, -3], vec![i64::MIN], vec![1 << 32, 1 << 32], vec![1 << 31, 1 << 31, 4],
         vec![i64::MAX], vec![i64::MAX, 2], vec![1 << 62, 4], vec![1 << 62, 4, 3], vec![65536, 65536, 65536, 65536], vec![2, 0, 5],
         vec![1 << 33, 1 << 31], vec![3, 1 << 32, 1 << 32],
+        // a negative dimension next to a zero one: `dim as usize` instead of `try_into` would
+        // give a huge size whose product with 0 still matches empty data
+        vec![-1, 0], vec![0, -5], vec![i64::MIN, 0], vec![0, 3, -2], vec![-1, 0, -1],
     ];
     for &t in &onnx_types {
         for sh in &ishapes {
@@ -257,9 +260,10 @@ fn gen_constants(rng: &mut SplitMix64, n: usize, thorough: bool, out: &mut impl 
     for _ in 0..n / 2 {
         let rank = rng.below(4) as usize;
         let sh: Vec<i64> = (0..rank)
-            .map(|_| match rng.below(8) {
+            .map(|_| match rng.below(9) {
                 0 => rng.pick(&I64X),
                 1 => 1i64 << rng.below(63),
+                2 => -(rng.below(4) as i64) - 1,
                 _ => rng.below(5) as i64,
             })
             .collect();
